@@ -357,7 +357,7 @@ def _bad_answer(res, role, ans):
 def _localize(spec, pc, cc, channel):
     """Tag of the smallest sub-tree whose digest differs between the processes."""
     if "expr" not in spec:
-        return "user-class-instance"
+        return "user-class-instance" if "hier" in spec else "numeric"
     a = _ask(pc, {"op": "subdigests", "case": spec}).get("subs", [])
     b = _ask(cc, {"op": "subdigests", "case": spec}).get("subs", [])
     subs = subspecs(spec["expr"])
